@@ -31,6 +31,18 @@ type deferRec struct {
 type retRec struct {
 	st   *State
 	vals []*Val
+	pos  token.Pos
+}
+
+// lineText: the trimmed source line at pos (used to name return sites)
+func (fr *Frame) lineText(pos token.Pos) string {
+	p := fr.e.g.fset.Position(pos)
+	src := fr.e.g.source(p.Filename)
+	ls := strings.Split(src, "\n")
+	if p.Line >= 1 && p.Line <= len(ls) {
+		return strings.Join(strings.Fields(ls[p.Line-1]), " ")
+	}
+	return fmt.Sprintf("%s:%d", shortFile(p.Filename), p.Line)
 }
 
 type loopInfo struct {
